@@ -261,7 +261,9 @@ fn execute(opts: &Options) -> Result<i32> {
             let file = PathBuf::from(path);
             let file = file.canonicalize().unwrap_or(file);
 
-            let (config, _) = load_config(Some(file.parent().unwrap()), Some(options))?;
+            // The file system root has no parent: look its configuration up in the root itself.
+            let dir = file.parent().unwrap_or(&file);
+            let (config, _) = load_config(Some(dir), Some(options))?;
             let toml = config.all_options().to_toml()?;
             io::stdout().write_all(toml.as_bytes())?;
 
